@@ -13,33 +13,35 @@ type Evidence struct {
 	tier string
 	seed int64
 
-	Paths         int64
-	Jobs          int
-	Decisions     int64
-	Steps         int64
-	MaxSteps      int64
-	Queries       int64
-	Sat           int64
-	Unsat         int64
-	UnknownQ      int64
-	SolverErrors  int64
-	SolverS       float64
-	MaxQueryS     float64
-	LoadS         float64
-	Replays       int
-	KnownHits     int
-	PanicsIgnored int64
-	Counts        map[string]int64
-	Reach         map[string]int64
-	Funcs         map[string]bool
-	Stubs         map[string]int64
-	GlobalW       map[string]int64
-	Samples       []map[string]interface{}
-	Groups        map[string]*groupEv
-	Inconclusive  []string
-	Incomplete    []string
-	Violations    []map[string]interface{}
-	Budgets       map[string]int64
+	Paths              int64
+	Jobs               int
+	Decisions          int64
+	Steps              int64
+	MaxSteps           int64
+	Queries            int64
+	Sat                int64
+	Unsat              int64
+	UnknownQ           int64
+	SolverErrors       int64
+	SolverS            float64
+	MaxQueryS          float64
+	LoadS              float64
+	Replays            int
+	KnownHits          int
+	PanicsIgnored      int64
+	Counts             map[string]int64
+	Reach              map[string]int64
+	Funcs              map[string]bool
+	Stubs              map[string]int64
+	GlobalW            map[string]int64
+	Samples            []map[string]interface{}
+	Groups             map[string]*groupEv
+	Inconclusive       []string
+	Incomplete         []string
+	Violations         []map[string]interface{}
+	Budgets            map[string]int64
+	SelftestPairs      int
+	SelftestMismatches int
 }
 
 type groupEv struct {
@@ -168,7 +170,9 @@ func (ev *Evidence) write(wall float64, violations int) {
 		"coverage": map[string]interface{}{
 			"states":                        states,
 			"transitions":                   ev.Decisions,
-			"traces_validated_against_impl": ev.Replays,
+			"traces_validated_against_impl": ev.Replays + ev.SelftestPairs,
+			"selftest":                      map[string]int{"pairs_compared_native_vs_gosym": ev.SelftestPairs, "mismatches": ev.SelftestMismatches},
+			"native_replays":                ev.Replays,
 			"samples":                       samples,
 			"exhaustive":                    len(ev.Inconclusive) == 0 && len(ev.Incomplete) == 0,
 			"rule":                          "states = feasible paths (input equivalence classes) of the harness over the real SSA of /repo, every symbolic branch decided by an SMT query; transitions = symbolic branch decisions taken; each job is one concrete program shape, inside a job nothing is sampled",
